@@ -74,10 +74,12 @@ class Recorder:
             "iu": bool(an.include_unreachable()),
         }
         if mode == "live":
-            g.update(predef=[], premaybe=[], inout=sorted(vid(x) for x in an._initial))
+            evs = {bidx.get(e, 0) for e in an._initial.values()}
+            g.update(predef=[], premaybe=[], inout=sorted(vid(x) for x in an._initial),
+                     iev=(evs.pop() if len(evs) == 1 else 0))
         else:
             g.update(predef=sorted(vid(x) for x in an.ass_before_entry),
-                     premaybe=sorted(vid(x) for x in an.maybe_ass_before_entry), inout=[])
+                     premaybe=sorted(vid(x) for x in an.maybe_ass_before_entry), inout=[], iev=0)
         # edges to blocks outside the analysed set would make the abstraction unsound
         for b in allbbs:
             for s in list(b.successors) + list(b.predecessors):
